@@ -58,6 +58,8 @@ type Proc struct {
 	obj int
 }
 
+func (p *Proc) key() string { return p.Cfg.ID + "#" + strconv.Itoa(p.obj) }
+
 func (p *Proc) Specification() (sdk.Specification, error) {
 	return sdk.Specification{Name: "verif-fake", Version: "v0.0.0"}, nil
 }
@@ -71,14 +73,14 @@ func (p *Proc) Open(context.Context) error {
 	p.sh.mu.Lock()
 	defer p.sh.mu.Unlock()
 	if p.Cfg.OpenErr != "" || (p.Cfg.OpenErrGen != "" && p.Cfg.OpenErrGen == p.gen) {
-		p.W.Log.Add("Open", "conn", p.Cfg.ID, "kind", "processor", "ok", false, "gen", p.gen, "obj", p.obj)
+		p.W.Log.Add("Open", "conn", p.Cfg.ID, "key", p.key(), "kind", "processor", "ok", false, "gen", p.gen, "obj", p.obj)
 		if p.Cfg.OpenErr != "" {
 			return errors.New(p.Cfg.OpenErr)
 		}
 		return errors.New("verif: open refused for generation " + p.gen)
 	}
 	p.sh.opens++
-	p.W.Log.Add("Open", "conn", p.Cfg.ID, "kind", "processor", "ok", true, "gen", p.gen, "obj", p.obj)
+	p.W.Log.Add("Open", "conn", p.Cfg.ID, "key", p.key(), "kind", "processor", "ok", true, "gen", p.gen, "obj", p.obj)
 	return nil
 }
 
@@ -86,7 +88,7 @@ func (p *Proc) Teardown(context.Context) error {
 	p.sh.mu.Lock()
 	defer p.sh.mu.Unlock()
 	p.sh.tears++
-	p.W.Log.Add("Teardown", "conn", p.Cfg.ID, "kind", "processor", "gen", p.gen, "obj", p.obj)
+	p.W.Log.Add("Teardown", "conn", p.Cfg.ID, "key", p.key(), "kind", "processor", "gen", p.gen, "obj", p.obj)
 	return toErr(p.Cfg.TeardownErr)
 }
 
